@@ -1,4 +1,5 @@
 import ScrapliModel.Lemmas.Channel
+import ScrapliModel.ChannelOps
 import ScrapliModel.Generated.Consts
 import ScrapliModel.Lemmas.GoSem
 import ScrapliModel.Generated.BodiesChannel
@@ -102,6 +103,370 @@ theorem sendCommands_exact (cfg : Cfg) (xs : List Exchange) (s : Sess) (hq : s.q
     refine ⟨s2, ?_, hq2, ?_⟩
     · simp only [sendAll, h1, h2, List.map_cons]
     · rw [hw2, hw1]; simp
+
+/-! ## GetPrompt, interim prompt patterns, eager sends (model: `ScrapliModel/ChannelOps.lean`) -/
+
+/-- **Interim prompt patterns.** With `InterimPromptPatterns` the second read of a send completes as
+soon as the search window matches the channel's prompt pattern OR one of the interim patterns
+(first match in stream order, whichever pattern it is); without them, the prompt pattern only. -/
+theorem finalPred_eq (cfg : Cfg) (interim : List (Bytes → Bool)) (rb : Bytes) :
+    finalPred cfg interim rb
+      = (promptPred cfg rb || interim.any fun p => p (window rb cfg.depth)) := by
+  unfold finalPred
+  cases interim with
+  | nil => simp
+  | cons p ps => simp [anyPromptPred, promptPred]
+
+/-- the echo read of a command that is not empty, or in exact mode, is the plain echo read -/
+theorem echoRead_eq (cfg : Cfg) (cmd : Bytes) (q : List Bytes) (h : skipsEcho cfg cmd = false) :
+    echoRead cfg cmd q = readUntil (echoPred cfg cmd) q [] := by
+  simp [echoRead, h]
+
+/-- without options (and unless the echo read is skipped) the optioned send is the plain send the
+theorems above are about -/
+theorem sendInputO_default (cfg : Cfg) (s : Sess) (x : Exchange) (h : skipsEcho cfg x.cmd = false) :
+    sendInputO cfg {} s x = sendInput cfg s x := by
+  unfold sendInputO sendInput finalPred
+  simp [echoRead_eq, h]
+  rfl
+
+/-- Well-formedness of a send with options, for `stale` bytes left in the queue: as `WellFormed`,
+but the answer is judged by the completion predicate the options select (`finalPred`: prompt
+pattern or any interim pattern, on the search window), an eager send asks nothing of the answer
+(it never reads it), and an empty input in fuzzy mode asks nothing of the echo (it is not read:
+whatever is queued is then part of what the second read sees, `sendPre`). -/
+def WellFormedO (cfg : Cfg) (o : SendOpts) (stale : Bytes) (x : Exchange) : Prop :=
+  (skipsEcho cfg x.cmd = false →
+    stale ++ x.echo.flatten ≠ [] ∧ ExactAt (echoPred cfg x.cmd) (stale ++ x.echo.flatten)) ∧
+  (o.eager = false → sendPre cfg stale x ++ x.resp.flatten ≠ [] ∧
+    ExactAt (finalPred cfg o.interim) (sendPre cfg stale x ++ x.resp.flatten))
+
+/-- Well-formedness of a `GetPrompt`: the prompt predicate first holds exactly at the end of what
+the device emits for the bare return (preceded by whatever was left in the queue). -/
+def WellFormedP (cfg : Cfg) (stale : Bytes) (resp : List Bytes) : Prop :=
+  stale ++ resp.flatten ≠ [] ∧ ExactAt (promptPred cfg) (stale ++ resp.flatten)
+
+/-- a well-formed plain exchange never has the echo read skipped: an empty input in fuzzy mode is
+"seen" in the empty text, so its echo predicate cannot first hold at the end of a non-empty one -/
+theorem wellFormed_not_skips (cfg : Cfg) (stale : List Bytes) (x : Exchange)
+    (h : WellFormed cfg stale x) : skipsEcho cfg x.cmd = false := by
+  cases hs : skipsEcho cfg x.cmd with
+  | false => rfl
+  | true =>
+    exfalso
+    simp only [skipsEcho, Bool.and_eq_true, Bool.not_eq_true', List.isEmpty_iff] at hs
+    obtain ⟨hne, he, _⟩ := h
+    have hlen : 0 < (stale ++ x.echo).flatten.length := by
+      cases hh : (stale ++ x.echo).flatten with
+      | nil => exact absurd hh hne
+      | cons a t => simp
+    have := he.2 0 hlen
+    simp [echoPred, hs.1, hs.2, window, roughlyContains, isInfix] at this
+
+theorem wellFormedO_plain_iff (cfg : Cfg) (stale : List Bytes) (x : Exchange)
+    (hs : skipsEcho cfg x.cmd = false) :
+    WellFormedO cfg {} stale.flatten x ↔ WellFormed cfg stale x := by
+  unfold WellFormedO WellFormed finalPred sendPre
+  simp [List.flatten_append, hs, and_assoc]
+
+theorem wellFormedO_of_wellFormed (cfg : Cfg) (stale : List Bytes) (x : Exchange)
+    (h : WellFormed cfg stale x) : WellFormedO cfg {} stale.flatten x :=
+  (wellFormedO_plain_iff cfg stale x (wellFormed_not_skips cfg stale x h)).mpr h
+
+/-- interim matcher of the examples: "the window ends in `:`" -/
+def demoInterim : List (Bytes → Bool) := [fun w => w.getLast? == some 58]
+
+/-- `sh` answered by `⏎ok⏎?:` (an interim prompt, cut after `⏎ok⏎`), `sh` sent eagerly, a bare
+return answered by `⏎r|#`, and the empty command answered by `⏎r#` -/
+def demoX3 : Exchange := ⟨[115, 104], [[115], [104]], [[10, 111, 107, 10], [63, 58]]⟩
+def demoP : List Bytes := [[10, 114], [35]]
+def demoX4 : Exchange := ⟨[], [], [[10, 114, 35]]⟩
+
+example : WellFormedO demoCfg { interim := demoInterim } [] demoX3 := by
+  unfold WellFormedO; decide +kernel
+example : ¬ ExactAt (promptPred demoCfg) demoX3.resp.flatten := by decide +kernel
+example : WellFormedO demoCfg { eager := true } [] demoX1 := by unfold WellFormedO; decide +kernel
+example : WellFormedO demoCfg {} demoX1.resp.flatten demoX2 := by unfold WellFormedO; decide +kernel
+example : WellFormedP demoCfg [] demoP := by unfold WellFormedP; decide +kernel
+example : skipsEcho demoCfg demoX4.cmd = true ∧ WellFormedO demoCfg {} [] demoX4 := by
+  unfold WellFormedO; decide +kernel
+
+/-- One send with options and stale bytes in the queue. Not eager: the result is the processed
+answer of *this* exchange — everything up to the first point where the prompt pattern or an interim
+pattern matches — and the queue is drained. Eager: the result is `processOut` of nothing and the
+queue holds exactly the device's answer, untouched. Either way the device was sent the command and
+then one return. (`sendPre` is empty unless the input is empty in fuzzy mode.) -/
+theorem sendInputO_with_stale (cfg : Cfg) (o : SendOpts) (s : Sess) (x : Exchange)
+    (h : WellFormedO cfg o s.q.flatten x) :
+    ∃ s', sendInputO cfg o s x
+        = some (if o.eager then processOut cfg []
+            else processOut cfg (sendPre cfg s.q.flatten x ++ x.resp.flatten), s') ∧
+      s'.q.flatten = (if o.eager then sendPre cfg s.q.flatten x ++ x.resp.flatten else []) ∧
+      s'.writes = s.writes ++ [x.cmd, cfg.ret] := by
+  obtain ⟨he, hr⟩ := h
+  have hfl : (s.q ++ x.echo).flatten = s.q.flatten ++ x.echo.flatten := by simp
+  -- the first read: skipped, or exactly `stale ++ echo`
+  have h1 : ∃ r t1, echoRead cfg x.cmd (s.q ++ x.echo) = some (r, t1) ∧
+      t1.flatten = sendPre cfg s.q.flatten x := by
+    cases hs : skipsEcho cfg x.cmd with
+    | true => exact ⟨[], s.q ++ x.echo, by simp [echoRead, hs], by simp [sendPre, hs]⟩
+    | false =>
+      obtain ⟨hne1, he1⟩ := he hs
+      obtain ⟨t1, h1, ht1⟩ := readUntil_exact (echoPred cfg x.cmd) [] (s.q ++ x.echo) [] rfl
+        (by rw [hfl]; exact hne1) (by rw [hfl]; exact he1)
+      simp only [List.nil_append, List.append_nil] at h1
+      exact ⟨_, t1, by rw [echoRead_eq cfg _ _ hs, h1], by simp [sendPre, hs, ht1]⟩
+  obtain ⟨r, t1, h1, ht1⟩ := h1
+  cases heg : o.eager with
+  | false =>
+    obtain ⟨hne2, hp⟩ := hr heg
+    have hfl2 : (t1 ++ x.resp).flatten = sendPre cfg s.q.flatten x ++ x.resp.flatten := by
+      simp [ht1]
+    obtain ⟨t2, h2, ht2⟩ := readUntil_exact (finalPred cfg o.interim) [] (t1 ++ x.resp) [] rfl
+      (by rw [hfl2]; exact hne2) (by rw [hfl2]; exact hp)
+    simp only [List.nil_append, List.append_nil] at h2
+    refine ⟨{ q := t2, writes := s.writes ++ [x.cmd] ++ [cfg.ret] }, ?_, by simpa using ht2, by simp⟩
+    unfold sendInputO
+    simp only [h1, h2, heg, hfl2]
+    simp
+  | true =>
+    refine ⟨{ q := t1 ++ x.resp, writes := s.writes ++ [x.cmd] ++ [cfg.ret] }, ?_, by simp [ht1],
+      by simp⟩
+    unfold sendInputO
+    simp only [h1, heg]
+    simp
+
+/-- **The empty command in exact mode** — the part of the property statement the theorems above do
+not reach. With `ExactMatchInput`, an empty input and a drained queue (the device echoes nothing for
+an empty input), the first read of `SendInputB` never completes: `ReadUntilExplicit` has no exit for
+an empty input and tests its predicate only after a chunk arrived. The operation then ends in its
+timeout instead of returning the (well-formed) answer of the device. In fuzzy mode the same exchange
+completes (`sendInputO_with_stale` with `skipsEcho`). -/
+theorem emptyCommand_exact_blocks (cfg : Cfg) (o : SendOpts) (s : Sess) (resp : List Bytes)
+    (hx : cfg.exact = true) (hq : s.q = []) :
+    sendInputO cfg o s ⟨[], [], resp⟩ = none := by
+  simp [sendInputO, echoRead, skipsEcho, hx, hq, readUntil]
+
+/-- the full statement for that case, which the code as it stands does not satisfy (finding
+C01-F16; it holds for `cfg.exact = false`: `emptyCommand_fuzzy_completes`) -/
+def EmptyCommandCompletes (cfg : Cfg) : Prop :=
+  ∀ (s : Sess) (resp : List Bytes), s.q.flatten = [] → resp.flatten ≠ [] →
+    ExactAt (promptPred cfg) resp.flatten →
+    ∃ s', sendInputO cfg {} s ⟨[], [], resp⟩ = some (processOut cfg resp.flatten, s') ∧
+      s'.q.flatten = [] ∧ s'.writes = s.writes ++ [[], cfg.ret]
+
+theorem emptyCommand_fuzzy_completes (cfg : Cfg) (hx : cfg.exact = false) :
+    EmptyCommandCompletes cfg := by
+  intro s resp hq hne hp
+  have hsk : skipsEcho cfg [] = true := by simp [skipsEcho, hx]
+  have hpre : sendPre cfg s.q.flatten ⟨[], [], resp⟩ = [] := by simp [sendPre, hsk, hq]
+  have hw : WellFormedO cfg {} s.q.flatten ⟨[], [], resp⟩ := by
+    refine ⟨fun h => ?_, fun _ => ?_⟩
+    · rw [hsk] at h; exact absurd h (by simp)
+    · rw [hpre]; simp only [List.nil_append]
+      exact ⟨hne, by simpa [finalPred] using hp⟩
+  obtain ⟨s', h1, h2, h3⟩ := sendInputO_with_stale cfg {} s ⟨[], [], resp⟩ hw
+  refine ⟨s', ?_, ?_, h3⟩
+  · rw [h1, hpre]; simp
+  · rw [h2]; simp
+
+theorem emptyCommand_exact_partial (cfg : Cfg) (hx : cfg.exact = true) (resp : List Bytes)
+    (hne : resp.flatten ≠ []) (hp : ExactAt (promptPred cfg) resp.flatten) :
+    ¬ EmptyCommandCompletes cfg := by
+  intro h
+  obtain ⟨s', h1, _⟩ := h { q := [], writes := [] } resp rfl hne hp
+  rw [emptyCommand_exact_blocks cfg {} _ resp hx rfl] at h1
+  exact absurd h1 (by simp)
+
+/-- **GetPrompt.** With `stale` bytes left in the queue, a well-formed `GetPrompt` returns
+`PromptPattern.Find` of exactly `stale ++` what the device emitted for the return, drains the queue
+and writes one return — nothing else reaches the device. -/
+theorem getPrompt_with_stale (cfg : Cfg) (findP : Bytes → Bytes) (s : Sess) (resp : List Bytes)
+    (h : WellFormedP cfg s.q.flatten resp) :
+    ∃ s', getPrompt cfg findP s resp = some (findP (s.q.flatten ++ resp.flatten), s') ∧
+      s'.q.flatten = [] ∧ s'.writes = s.writes ++ [cfg.ret] := by
+  obtain ⟨hne, hp⟩ := h
+  have hfl : (s.q ++ resp).flatten = s.q.flatten ++ resp.flatten := by simp
+  obtain ⟨t, h1, ht⟩ := readUntil_exact (promptPred cfg) [] (s.q ++ resp) [] rfl
+    (by rw [hfl]; exact hne) (by rw [hfl]; exact hp)
+  simp only [List.nil_append, List.append_nil] at h1
+  refine ⟨{ q := t, writes := s.writes ++ [cfg.ret] }, ?_, ht, rfl⟩
+  unfold getPrompt
+  simp only [h1, hfl]
+
+/-- the Boolean `exactAtB` decides `ExactAt` -/
+theorem exactAtB_iff (P : Bytes → Bool) (S : Bytes) : exactAtB P S = true ↔ ExactAt P S := by
+  unfold exactAtB ExactAt
+  simp only [Bool.and_eq_true, List.all_eq_true, List.mem_range, Bool.not_eq_true']
+
+/-- **GetPrompt answered from the queue** (the situation right after login, or after anything that
+left a complete prompt unread): when the bytes left in the queue end in a prompt and no proper
+prefix of them does, `GetPrompt` returns `PromptPattern.Find` of exactly those bytes, writes one
+return, and everything the device emits for that return stays queued, untouched, for the next
+operation (whose echo read swallows it: `sendInputO_with_stale`). -/
+theorem getPrompt_from_queue (cfg : Cfg) (findP : Bytes → Bytes) (s : Sess) (resp : List Bytes)
+    (h : promptQueued cfg s.q.flatten = true) :
+    ∃ s', getPrompt cfg findP s resp = some (findP s.q.flatten, s') ∧
+      s'.q.flatten = resp.flatten ∧ s'.writes = s.writes ++ [cfg.ret] := by
+  unfold promptQueued at h
+  simp only [Bool.and_eq_true, Bool.not_eq_true', List.isEmpty_eq_false_iff, exactAtB_iff] at h
+  obtain ⟨t, h1, ht⟩ := readUntil_exact (promptPred cfg) [] s.q resp rfl h.1 h.2
+  simp only [List.nil_append] at h1
+  refine ⟨{ q := t ++ resp, writes := s.writes ++ [cfg.ret] }, ?_, by simp [ht], rfl⟩
+  unfold getPrompt
+  simp only [h1]
+
+/-- well-formedness of one operation for `stale` bytes in the queue -/
+def WFOp (cfg : Cfg) (stale : Bytes) : ChanOp → Prop
+  | .send o x => WellFormedO cfg o stale x
+  | .prompt resp => promptQueued cfg stale = true ∨ WellFormedP cfg stale resp
+
+/-- well-formedness of an operation list: each operation for what its predecessor leaves -/
+def WFOps (cfg : Cfg) : Bytes → List ChanOp → Prop
+  | _, [] => True
+  | st, op :: ops => WFOp cfg st op ∧ WFOps cfg (op.leaves cfg st) ops
+
+theorem runOp_exact (cfg : Cfg) (findP : Bytes → Bytes) (s : Sess) (op : ChanOp)
+    (h : WFOp cfg s.q.flatten op) :
+    ∃ s', runOp cfg findP s op = some (op.spec cfg findP s.q.flatten, s') ∧
+      s'.q.flatten = op.leaves cfg s.q.flatten ∧ s'.writes = s.writes ++ op.writes cfg := by
+  cases op with
+  | send o x => exact sendInputO_with_stale cfg o s x h
+  | prompt resp =>
+    cases hq : promptQueued cfg s.q.flatten with
+    | true =>
+      obtain ⟨s', h1, h2, h3⟩ := getPrompt_from_queue cfg findP s resp hq
+      exact ⟨s', by simp only [runOp, h1, ChanOp.spec, hq, if_true], by simp only [h2, ChanOp.leaves, hq, if_true], h3⟩
+    | false =>
+      have hp : WellFormedP cfg s.q.flatten resp := by
+        rcases h with h | h
+        · rw [hq] at h; exact absurd h (by simp)
+        · exact h
+      obtain ⟨s', h1, h2, h3⟩ := getPrompt_with_stale cfg findP s resp hp
+      exact ⟨s', by simp [runOp, h1, ChanOp.spec, hq], by simp [h2, ChanOp.leaves, hq], h3⟩
+
+/-- THE PROPERTY over mixed sessions: sends (plain, with interim prompt patterns, eager) and
+`GetPrompt`s in any order. If every operation is well formed for what its predecessor leaves in
+the queue, the i-th operation returns its own specified result (`ChanOp.spec`: the processed answer
+of its own exchange / the prompt found in its own answer or in the prompt left queued), the queue
+holds exactly what the last operation is specified to leave, and the device received exactly the
+operations' writes in order: `cmd ⏎` per send, one `⏎` per `GetPrompt`. -/
+theorem runOps_exact (cfg : Cfg) (findP : Bytes → Bytes) (ops : List ChanOp) (s : Sess)
+    (h : WFOps cfg s.q.flatten ops) :
+    ∃ s', runOps cfg findP s ops = some (specOps cfg findP s.q.flatten ops, s') ∧
+      s'.q.flatten = leavesOps cfg s.q.flatten ops ∧
+      s'.writes = s.writes ++ ops.flatMap (ChanOp.writes cfg) := by
+  induction ops generalizing s with
+  | nil => exact ⟨s, rfl, rfl, by simp⟩
+  | cons op ops ih =>
+    obtain ⟨s1, h1, hq1, hw1⟩ := runOp_exact cfg findP s op h.1
+    obtain ⟨s2, h2, hq2, hw2⟩ := ih s1 (by rw [hq1]; exact h.2)
+    refine ⟨s2, ?_, ?_, ?_⟩
+    · simp only [runOps, h1, h2, specOps, hq1]
+    · rw [hq2, hq1]; rfl
+    · rw [hw2, hw1]; simp
+
+theorem sendPre_of_not_skips (cfg : Cfg) (st : Bytes) (x : Exchange)
+    (h : skipsEcho cfg x.cmd = false) : sendPre cfg st x = [] := by simp [sendPre, h]
+
+theorem skipsEcho_of_ne (cfg : Cfg) (cmd : Bytes) (h : cmd ≠ []) : skipsEcho cfg cmd = false := by
+  cases cmd with
+  | nil => exact absurd rfl h
+  | cons a t => simp [skipsEcho]
+
+/-- a list of plain sends (none of them an empty input in fuzzy mode) is `sendAll`:
+`sendCommands_exact` is the instance of `runOps_exact` without `GetPrompt`, interim patterns and
+eager sends -/
+theorem runOps_sends (cfg : Cfg) (findP : Bytes → Bytes) (xs : List Exchange) (s : Sess)
+    (h : ∀ x ∈ xs, skipsEcho cfg x.cmd = false) :
+    runOps cfg findP s (xs.map (ChanOp.send {})) = sendAll cfg s xs := by
+  induction xs generalizing s with
+  | nil => rfl
+  | cons x xs ih =>
+    simp only [List.map_cons, runOps, runOp, sendInputO_default cfg s x (h x (by simp)), sendAll]
+    cases sendInput cfg s x with
+    | none => rfl
+    | some r => simp only [ih r.2 (fun y hy => h y (by simp [hy]))]; rfl
+
+theorem promptQueued_nil (cfg : Cfg) : promptQueued cfg [] = false := by simp [promptQueued]
+
+/-- **A `GetPrompt` between two commands**: from a drained queue, `cmd₁`, `GetPrompt`, `cmd₂` return
+the processed answer of the first exchange, `PromptPattern.Find` of exactly what the device emitted
+for the bare return, and the processed answer of the second exchange; the queue is empty afterwards
+and the device received `cmd₁ ⏎ ⏎ cmd₂ ⏎`. -/
+theorem getPrompt_between_commands (cfg : Cfg) (findP : Bytes → Bytes) (s : Sess) (x1 x2 : Exchange)
+    (resp : List Bytes) (hq : s.q.flatten = []) (h1 : WellFormed cfg [] x1)
+    (hp : WellFormedP cfg [] resp) (h2 : WellFormed cfg [] x2) :
+    ∃ s', runOps cfg findP s [.send {} x1, .prompt resp, .send {} x2]
+        = some ([processOut cfg x1.resp.flatten, findP resp.flatten, processOut cfg x2.resp.flatten], s') ∧
+      s'.q.flatten = [] ∧
+      s'.writes = s.writes ++ [x1.cmd, cfg.ret, cfg.ret, x2.cmd, cfg.ret] := by
+  have hs1 := wellFormed_not_skips cfg [] x1 h1
+  have hs2 := wellFormed_not_skips cfg [] x2 h2
+  have hw : WFOps cfg s.q.flatten [.send {} x1, .prompt resp, .send {} x2] := by
+    rw [hq]
+    refine ⟨wellFormedO_of_wellFormed cfg [] x1 h1, Or.inr hp, ?_, trivial⟩
+    simp only [ChanOp.leaves]
+    exact wellFormedO_of_wellFormed cfg [] x2 h2
+  obtain ⟨s', hr, hq', hw'⟩ := runOps_exact cfg findP _ s hw
+  refine ⟨s', ?_, ?_, ?_⟩
+  · rw [hr, hq]
+    simp [specOps, ChanOp.spec, ChanOp.leaves, promptQueued_nil, sendPre_of_not_skips, hs1, hs2]
+  · rw [hq', hq]; simp [leavesOps, ChanOp.leaves]
+  · rw [hw']; simp [ChanOp.writes]
+
+/-- **`GetPrompt` right after login, then a command** (what a network driver does before its first
+send): the device's first prompt `login` sits in the queue. `GetPrompt` returns
+`PromptPattern.Find login` and leaves the reaction to its return queued; the command's echo read
+swallows that reaction, and the command returns exactly its own exchange's processed answer. The
+device received `⏎ cmd ⏎`. -/
+theorem getPrompt_after_login_then_send (cfg : Cfg) (findP : Bytes → Bytes) (s : Sess) (x : Exchange)
+    (resp : List Bytes) (hl : promptQueued cfg s.q.flatten = true) (hx : WellFormed cfg resp x) :
+    ∃ s', runOps cfg findP s [.prompt resp, .send {} x]
+        = some ([findP s.q.flatten, processOut cfg x.resp.flatten], s') ∧
+      s'.q.flatten = [] ∧ s'.writes = s.writes ++ [cfg.ret, x.cmd, cfg.ret] := by
+  have hs := wellFormed_not_skips cfg resp x hx
+  have hw : WFOps cfg s.q.flatten [.prompt resp, .send {} x] := by
+    refine ⟨Or.inl hl, ?_, trivial⟩
+    simp only [ChanOp.leaves, hl, if_true]
+    exact wellFormedO_of_wellFormed cfg resp x hx
+  obtain ⟨s', hr, hq', hw'⟩ := runOps_exact cfg findP _ s hw
+  refine ⟨s', ?_, ?_, ?_⟩
+  · rw [hr]; simp [specOps, ChanOp.spec, hl, sendPre_of_not_skips, hs]
+  · rw [hq']; simp [leavesOps, ChanOp.leaves]
+  · rw [hw']; simp [ChanOp.writes]
+
+/-- **An eager send followed by a plain send**: the eager send returns `processOut` of nothing and
+leaves the device's whole answer queued; the following send swallows it together with its own echo
+(`stale` = that answer) and returns exactly its own exchange's processed answer. -/
+theorem eager_then_send (cfg : Cfg) (findP : Bytes → Bytes) (s : Sess) (x1 x2 : Exchange)
+    (hq : s.q.flatten = []) (hc : x1.cmd ≠ []) (h1 : WellFormedO cfg { eager := true } [] x1)
+    (h2 : WellFormed cfg x1.resp x2) :
+    ∃ s', runOps cfg findP s [.send { eager := true } x1, .send {} x2]
+        = some ([processOut cfg [], processOut cfg x2.resp.flatten], s') ∧
+      s'.q.flatten = [] ∧ s'.writes = s.writes ++ [x1.cmd, cfg.ret, x2.cmd, cfg.ret] := by
+  have hs1 := skipsEcho_of_ne cfg x1.cmd hc
+  have hs2 := wellFormed_not_skips cfg x1.resp x2 h2
+  have hl : ChanOp.leaves cfg [] (.send { eager := true } x1) = x1.resp.flatten := by
+    simp [ChanOp.leaves, sendPre_of_not_skips, hs1]
+  have hw : WFOps cfg s.q.flatten [.send { eager := true } x1, .send {} x2] := by
+    rw [hq]
+    refine ⟨h1, ?_, trivial⟩
+    rw [hl]
+    exact wellFormedO_of_wellFormed cfg x1.resp x2 h2
+  obtain ⟨s', hr, hq', hw'⟩ := runOps_exact cfg findP _ s hw
+  refine ⟨s', ?_, ?_, ?_⟩
+  · rw [hr]; simp [specOps, ChanOp.spec, sendPre_of_not_skips, hs2]
+  · rw [hq']; simp [leavesOps, ChanOp.leaves]
+  · rw [hw']; simp [ChanOp.writes]
+
+/-- non-vacuity: an eager send, a plain send over what it left, a send stopped by an interim
+prompt, the empty command; and the login prompt `r#` answered from the queue followed by a send -/
+example : WFOps demoCfg [] [.send { eager := true } demoX1, .send {} demoX2,
+    .send { interim := demoInterim } demoX3, .send {} demoX4] := by
+  unfold WFOps WFOps WFOps WFOps WFOps WFOp WellFormedO; decide +kernel
+example : promptQueued demoCfg [114, 35] = true ∧ WellFormed demoCfg demoP demoX2 := by
+  unfold WellFormed; decide +kernel
 
 /-! ## normalisation is segmentation independent -/
 
